@@ -520,6 +520,14 @@ var bufExtAlias = map[string][]int{
 	"bytes.SplitN":                           {0},
 	"bytes.Split":                            {0},
 	"bytes.TrimSpace":                             {0},
+	// gjson returns sub-strings of the document for every string that needs no unescaping
+	"github.com/tidwall/gjson.Get":             {0},
+	"github.com/tidwall/gjson.GetBytes":        {0},
+	"github.com/tidwall/gjson.Parse":           {0},
+	"github.com/tidwall/gjson.ParseBytes":      {0},
+	"(github.com/tidwall/gjson.Result).String": {0},
+	"(github.com/tidwall/gjson.Result).Get":    {0},
+	"(github.com/tidwall/gjson.Result).Value":  {0},
 }
 
 func runC01_8(c *Ctx) {
